@@ -506,7 +506,7 @@ def pools():
     return _POOLS
 
 
-QUICK_SAMPLE = {'A': 160, 'B': 700, 'C': 200, 'D': 150, 'E': 700, 'F': 100, 'G': 500, 'H': 600}
+QUICK_SAMPLE = {'A': 160, 'B': 1500, 'C': 100000, 'D': 300, 'E': 1500, 'F': 100, 'G': 1500, 'H': 100000}      # C and H: whole pool
 
 
 def plan(tier, seed):
@@ -540,6 +540,9 @@ def judge_asl(out, r, where, src_text=None, claim_termination=True):
     """returns a violation key or None"""
     out.obs['asl_runs'] += 1
     if r.timed_out:
+        if not claim_termination:
+            out.obs['time_stops_termination_not_claimed'] += 1
+            return None
         out.inconc('timeout: asl %s' % where)
         return None
     if r.rc == -1 and r.err.startswith(b'spawn failed'):
@@ -570,7 +573,9 @@ ASL_ENV_NOCLAIM = {'ASL_VERIF_MAX_LINES': str(min(LINE_BUDGET, 300000)), 'ASL_VE
 
 
 def run_asl(ctx, src_name, flags=(), cwd=None, claim=True):
-    return ctx.run('asl', [src_name, '-o', 'x.p'] + list(flags) + ['-q'], env=ASL_ENV if claim else ASL_ENV_NOCLAIM, cwd=cwd, timeout=120)
+    # (no termination claim: an expiry is neither judged nor worth a second, longer run)
+    return ctx.run('asl', [src_name, '-o', 'x.p'] + list(flags) + ['-q'], env=ASL_ENV if claim else ASL_ENV_NOCLAIM, cwd=cwd,
+                   timeout=120 if claim else 40, retry=claim)
 
 
 def case_a(ctx, member):
@@ -639,7 +644,8 @@ def case_a(ctx, member):
 def case_small(ctx, member, text, tag, claim=True, stdin=None):
     out = ctx.out
     ctx.write('s.asm', text)
-    r = ctx.run('asl', ['s.asm', '-o', 'x.p', '-q'], env=ASL_ENV, timeout=60, stdin=b'' if stdin is None else stdin)
+    r = ctx.run('asl', ['s.asm', '-o', 'x.p', '-q'], env=ASL_ENV if claim else ASL_ENV_NOCLAIM, timeout=60 if claim else 40, retry=claim,
+                stdin=b'' if stdin is None else stdin)
     key = judge_asl(out, r, tag, claim_termination=claim)
     if key:
         show = text if isinstance(text, str) else repr(text[:300])
